@@ -64,3 +64,10 @@ package blockchain
 //@   atcall blockExecuter assert [execute-only-verified-first-block] gVerified && arg0 == gFirst && arg1 == gParts && arg2 == as(gSecond, *types.Block).LastCommit && calls(PopRequest) >= 1
 //@   loop 0 invariant bcR != nil && bcR.pool != nil && bcR.config != nil && bcR.Switch != nil
 //@   loop 1 invariant bcR != nil && bcR.pool != nil && bcR.config != nil && bcR.Switch != nil && 0 <= i
+
+// decoding of peer bytes is size-limited; an empty message panics on bz[0], which the connection's receive
+// goroutine recovers from (see the defers obligations in gemmill/p2p)
+//@ func DecodeMessage
+//@   props C18 C08
+//@   aborts when [empty-message-confined-by-recover] len(bz) == 0
+//@   atcall ReadBinary assert [decode-is-size-limited] arg_lmt == maxBlockchainResponseSize && arg_lmt > 0
